@@ -121,14 +121,7 @@ class StmtMixin:
         if isinstance(s, ast.FunctionDef):
             if s.decorator_list:
                 raise Unsupported('decorated nested function {}'.format(s.name))
-            if self.def_stack:
-                # the nested function sees its free variables as they are now: refuse when the enclosing function rebinds
-                # one of them after this point
-                free = {n.id for n in ast.walk(s) if isinstance(n, ast.Name) and isinstance(n.ctx, ast.Load)}
-                for n in ast.walk(self.def_stack[-1]):
-                    if isinstance(n, ast.Name) and isinstance(n.ctx, ast.Store) and n.id in free and n.lineno > s.lineno \
-                            and not any(n is m for m in ast.walk(s)):
-                        raise Unsupported('{} is rebound after the nested function {} that reads it was defined'.format(n.id, s.name))
+            self.check_no_rebinding(s, s.name)
             st.env[s.name] = FuncValue(s, st.env, None)
             return st
         if isinstance(s, (ast.Global, ast.Nonlocal)):
@@ -150,7 +143,24 @@ class StmtMixin:
             for e, x in zip(t.elts, v):
                 self.bind_target(e, x, st, node)
             return
+        if isinstance(t, ast.Subscript) and isinstance(t.value, ast.Name) and t.value.id in st.env:
+            d = st.env[t.value.id]
+            key = self.ev(t.slice, st)
+            if isinstance(d, dict) and isinstance(key, (int, str)):
+                self.unshared(d, t.value.id, st, node)
+                nd = dict(d)
+                nd[key] = v
+                st.env[t.value.id] = nd
+                return
         raise Unsupported('assignment target {}'.format(unparse(t)))
+
+    def unshared(self, obj, name, st, node):
+        """a local container is updated by rebinding its name to a copy: sound only if no other name holds the same object"""
+        for env in [st.env] + list(st.stack):
+            for k, v in env.items():
+                if v is obj and not (env is st.env and k == name):
+                    raise Unsupported('container {} is updated while {} refers to the same object: {}'.format(
+                        name, k, unparse(node).split('\n')[0]))
 
     def exec_if(self, s, st):
         t, f, exact = self.split(s.test, st)
@@ -262,6 +272,28 @@ class StmtMixin:
                 both = ast.copy_location(ast.BoolOp(op=ast.And(), values=parts), test)
                 return self.split(both, st)
             return self.split_compare(test, st)
+        if isinstance(test, ast.Call) and not (isinstance(test.func, ast.Name) and not self.shadowed(test.func.id, st)) \
+                and not isinstance(test.func, ast.Attribute):
+            callee = self.ev(test.func, st)
+            body = self.predicate_body(callee)
+            if body is not None:
+                args, kwargs = self.eval_args(test, st)
+                if st.dead:
+                    return None, None, True
+                env = self.bind_params(callee, args, kwargs)
+                st.stack.append(st.env)
+                st.env = env
+                self.fn_stack.append(callee.label or getattr(callee.fdef, 'name', 'lambda'))
+                self.def_stack.append(callee.fdef)
+                try:
+                    t, f, e = self.split(body, st)
+                finally:
+                    self.def_stack.pop()
+                    self.fn_stack.pop()
+                for s2 in (t, f):
+                    if s2 is not None:
+                        s2.env = s2.stack.pop()
+                return t, f, e
         if isinstance(test, ast.Call):
             fn = dotted(test.func)
             if fn == 'isinstance' and not self.shadowed('isinstance', st) and len(test.args) == 2 and not test.keywords:
@@ -270,6 +302,18 @@ class StmtMixin:
         if st.dead:
             return None, None, True
         return self.split_truth(v, st, test)
+
+    def predicate_body(self, callee):
+        """the expression a lambda / `def f(..): return <expr>` evaluates to, when that is all it does"""
+        if not isinstance(callee, FuncValue):
+            return None
+        f = callee.fdef
+        if isinstance(f, ast.Lambda):
+            return f.body
+        body = [x for x in f.body if not (isinstance(x, ast.Expr) and isinstance(x.value, ast.Constant))]
+        if len(body) == 1 and isinstance(body[0], ast.Return) and body[0].value is not None and not f.decorator_list:
+            return body[0].value
+        return None
 
     def type_names(self, node):
         names = [node] if not isinstance(node, ast.Tuple) else list(node.elts)
@@ -443,7 +487,7 @@ class StmtMixin:
             return (st, None, True) if res else (None, st, True)
         if isinstance(op, (ast.Is, ast.IsNot, ast.Eq, ast.NotEq)) and (a is None or b is None):
             other = b if a is None else a
-            if isinstance(other, (Param, View, Bits, ModVal, list, dict, FuncValue, Opaque, TableVal)):
+            if isinstance(other, (Param, View, Bits, ModVal, list, dict, FuncValue, Opaque, TableVal, Record)):
                 res = isinstance(op, (ast.IsNot, ast.NotEq))
                 return (st, None, True) if res else (None, st, True)
         # normalise: abstract on the left
